@@ -4,6 +4,8 @@
 //! method and prints the observable result.  See lean/Driver/C03.lean for the model/spec side.
 use sourmash::encodings::HashFunctions;
 use sourmash::sketch::minhash::{max_hash_for_scaled, KmerMinHash, KmerMinHashBTree};
+use sourmash::signature::{Signature, SigsTrait};
+use sourmash::sketch::Sketch;
 use std::collections::BTreeMap;
 use verif_harness::*;
 
@@ -49,6 +51,102 @@ fn parse_pairs(s: &str) -> Vec<(u64, u64)> {
             (h, a)
         })
         .collect()
+}
+
+
+// ------------------------------------------------------------- Signature::add_sequence / add_protein
+
+/// `v:scaled:num:ksize:mol:seed:track` (v = `Sketch::MinHash`, t = `Sketch::LargeMinHash`), `;`-separated
+fn build_sig(specs: &str) -> Signature {
+    let mut sig = Signature::default();
+    for sp in specs.split(';') {
+        let f: Vec<&str> = sp.split(':').collect();
+        let p = |i: usize| -> u64 { f[i].parse().unwrap() };
+        let (scaled, num, ksize, seed, track) = (p(1), p(2) as u32, p(3) as u32, p(5), f[6] == "1");
+        let sk = if f[0] == "t" {
+            Sketch::LargeMinHash(KmerMinHashBTree::new(scaled, ksize, mol(f[4]), seed, track, num))
+        } else {
+            Sketch::MinHash(KmerMinHash::new(scaled, ksize, mol(f[4]), seed, track, num))
+        };
+        sig.push(sk);
+    }
+    sig
+}
+
+fn sk_obs(s: &Sketch) -> String {
+    let (m, a) = match s {
+        Sketch::MinHash(x) => (x.mins(), x.abunds()),
+        Sketch::LargeMinHash(x) => (x.mins(), x.abunds()),
+        _ => unreachable!(),
+    };
+    format!(
+        "{}/{}",
+        show_nats(m),
+        match a {
+            Some(a) => show_nats(a),
+            None => "none".into(),
+        }
+    )
+}
+
+fn sig_obs(sig: &Signature) -> String {
+    sig.sketches().iter().map(sk_obs).collect::<Vec<_>>().join("|")
+}
+
+fn pool(threads: usize) -> std::sync::Arc<rayon::ThreadPool> {
+    use std::sync::{Arc, Mutex, OnceLock};
+    static POOLS: OnceLock<Mutex<BTreeMap<usize, Arc<rayon::ThreadPool>>>> = OnceLock::new();
+    let mut g = POOLS.get_or_init(|| Mutex::new(BTreeMap::new())).lock().unwrap();
+    g.entry(threads)
+        .or_insert_with(|| Arc::new(rayon::ThreadPoolBuilder::new().num_threads(threads).build().unwrap()))
+        .clone()
+}
+
+/// `sigadd <threads> <force> <specs> <hexseq>…` / `sigprot <threads> <specs> <hexseq>…`: a fresh
+/// signature, the sequences added one after the other through `Signature::add_sequence` /
+/// `add_protein` (the rayon variant: the harness is built with `parallel`) inside a pool of
+/// `<threads>` threads.  `ok <sketch>|<sketch>|…` after the last call, or at the first failing call
+/// `err <Variant> <sketch>|…` (one thread: the run is deterministic) resp. `err <Variant> legal`
+/// (several threads: which of the other sketches were still updated is up to the scheduler; `legal`
+/// = every sketch is untouched or equals what the single-sketch call makes of it, and one of the
+/// failing sketches was run).
+fn sig_add(threads: usize, force: bool, prot: bool, specs: &str, seqs: &[&str]) -> String {
+    let mut sig = build_sig(specs);
+    let pl = pool(threads);
+    for hx in seqs {
+        let seq = unhex(hx);
+        let before = sig.sketches();
+        let res = pl.install(|| if prot { sig.add_protein(&seq) } else { sig.add_sequence(&seq, force) });
+        if let Err(e) = res {
+            if threads == 1 {
+                return format!("{} {}", err(e), sig_obs(&sig));
+            }
+            // reference: the single-sketch call on a copy of every sketch as it was before
+            let after = sig.sketches();
+            let mut tags = vec![];
+            let mut all_in = true;
+            let mut failing_ran = false;
+            for (b, a) in before.iter().zip(after.iter()) {
+                let mut single = b.clone();
+                let r = if prot { single.add_protein(&seq) } else { single.add_sequence(&seq, force) };
+                let (u, d) = (sk_obs(b) == sk_obs(a), sk_obs(&single) == sk_obs(a));
+                tags.push(match (u, d) {
+                    (true, true) => "=",
+                    (true, false) => "u",
+                    (false, true) => "a",
+                    _ => "x",
+                });
+                all_in &= u || d;
+                failing_ran |= r.is_err() && d;
+            }
+            return if all_in && failing_ran {
+                format!("{} legal", err(e))
+            } else {
+                format!("{} illegal {} {}", err(e), tags.join(","), sig_obs(&sig))
+            };
+        }
+    }
+    format!("ok {}", sig_obs(&sig))
 }
 
 struct St {
@@ -166,6 +264,8 @@ fn step(st: &mut St, ws: &[&str]) -> String {
                 Err(e) => err(e),
             }
         }
+        "sigadd" => sig_add(n(1) as usize, ws[2] == "1", false, ws[3], &ws[4..]),
+        "sigprot" => sig_add(n(1) as usize, false, true, ws[2], &ws[3..]),
         "cc" => {
             let d = ws[3] == "1";
             let res = match (&st.regs[&n(1)], &st.regs[&n(2)]) {
@@ -284,6 +384,106 @@ fn second_keys(r: &mut Rng, regime: &str, u: &[u64], a: &[u64]) -> Vec<u64> {
     }
 }
 
+
+// --------------------------------------------------------- generator: Signature::add_sequence cases
+
+fn gen_specs(r: &mut Rng, nsk: u64, only: Option<bool>) -> String {
+    // `only`: Some(true) = DNA sketches only, Some(false) = protein-family only, None = mixed
+    let mut v = vec![];
+    for _ in 0..nsk {
+        let dna = match only {
+            Some(d) => d,
+            None => r.chance(1, 2),
+        };
+        let m = if dna { "dna" } else { *r.pick(&["protein", "dayhoff", "hp"]) };
+        let k = if dna { *r.pick(&[3u64, 4, 5, 7, 11, 21, 31]) } else { *r.pick(&[3u64, 6, 7, 9, 10, 15, 21, 30]) };
+        let is_num = r.chance(1, 3);
+        let scaled = if is_num { 0 } else { *r.pick(&[1u64, 1, 2, 3, 10]) };
+        let num = if is_num { *r.pick(&[1u64, 3, 8, 500]) } else { 0 };
+        v.push(format!(
+            "{}:{}:{}:{}:{}:{}:{}",
+            if r.chance(1, 2) { "v" } else { "t" },
+            scaled,
+            num,
+            k,
+            m,
+            *r.pick(&[42u64, 42, 7]),
+            r.chance(1, 2) as u8
+        ));
+    }
+    v.join(";")
+}
+
+/// DNA-looking bytes: mostly ACGT in either case, sometimes an `N`/other invalid byte (never >= 0x80)
+fn gen_dna(r: &mut Rng, bad: bool) -> Vec<u8> {
+    let n = match r.below(6) {
+        0 => r.below(6),
+        1 => r.range(20, 40),
+        _ => r.range(6, 130),
+    } as usize;
+    let mut v: Vec<u8> = (0..n).map(|_| *r.pick(b"ACGTACGTACGTacgt")).collect();
+    if bad && n > 0 {
+        for _ in 0..r.range(1, 3) {
+            let i = r.below(n as u64) as usize;
+            v[i] = *r.pick(b"NNnXx-*R.");
+        }
+    }
+    // repeats, so that abundances above 1 and duplicate hashes occur
+    if r.chance(1, 3) && n > 8 {
+        let w = v[..n / 2].to_vec();
+        v.extend(w);
+    }
+    v
+}
+
+fn gen_prot(r: &mut Rng) -> Vec<u8> {
+    let n = match r.below(5) {
+        0 => r.below(4),
+        _ => r.range(2, 60),
+    } as usize;
+    (0..n).map(|_| *r.pick(b"ACDEFGHIKLMNPQRSTVWYACDEFGHIKLMNPQRSTVWYacdkly*XBZJ-")).collect()
+}
+
+fn gen_sig_cases(o: &mut Out, r: &mut Rng, n: u64) {
+    for _ in 0..n {
+        let kind = r.below(8);
+        let nsk = match r.below(4) {
+            0 => 1,
+            1 => r.range(2, 3),
+            _ => r.range(4, 12),
+        };
+        if kind == 0 {
+            // add_protein; DNA sketches in the signature make the call fail (InvalidHashFunction)
+            let only = if r.chance(2, 3) { Some(false) } else { None };
+            let specs = gen_specs(r, nsk, only);
+            o.case("sig add_protein");
+            let seqs: Vec<String> = (0..r.range(1, 3)).map(|_| hex(&gen_prot(r))).collect();
+            for t in [1, 2, 4, 8] {
+                o.op(&format!("sigprot {} {} {}", t, specs, seqs.join(" ")));
+            }
+            continue;
+        }
+        let only = match r.below(4) {
+            0 => Some(true),
+            1 => Some(false),
+            _ => None,
+        };
+        let specs = gen_specs(r, nsk, only);
+        let bad = kind <= 3;
+        o.case(&format!("sig add_sequence{}", if bad { " invalid-bases" } else { "" }));
+        // one to three sequences; with `bad`, the invalid bases sit in the last or in a middle one
+        let nseq = r.range(1, 3) as usize;
+        let bad_at = r.below(nseq as u64) as usize;
+        let seqs: Vec<String> = (0..nseq).map(|i| hex(&gen_dna(r, bad && i == bad_at))).collect();
+        let forces: &[u8] = if bad { &[0, 1] } else if r.chance(1, 2) { &[0] } else { &[1] };
+        for f in forces {
+            for t in [1, 2, 4, 8] {
+                o.op(&format!("sigadd {} {} {} {}", t, f, specs, seqs.join(" ")));
+            }
+        }
+    }
+}
+
 fn gen(a: &Args) {
     let mut r = Rng::new(a.seed);
     let mut o = Out::new();
@@ -295,6 +495,8 @@ fn gen(a: &Args) {
         3_000
     };
     let mols = ["dna", "protein", "dayhoff", "hp"];
+    // Signature::add_sequence / add_protein over several sketches (T-sig_add), one case in six
+    gen_sig_cases(&mut o, &mut r, ncases / 6);
     for ci in 0..ncases {
         let ty = if ci % 2 == 0 { "vec" } else { "tree" };
         let kind = r.below(10);
